@@ -18,6 +18,9 @@ def main():
     from vk import ch
     if a.replay:
         r = json.load(open(a.replay))
+        # the harness tables depend on the tier (and the hash seed) the counterexample was found with
+        os.environ["VERIF_TIER"] = r.get("tier", os.environ.get("VERIF_TIER", "quick"))
+        os.environ["VERIF_SEED"] = str(r.get("seed", os.environ.get("VERIF_SEED", "0")))
         ok, observed = ch.replay_call(r["module"], r["call"], "/tmp")
         print("replay %s: %s -> %s" % (a.replay, r["call"], observed))
         if ok:
